@@ -525,7 +525,7 @@ def run_case(rep: Report, prop, qual, name, setup, post, *, contracts=None, loop
     return out
 
 
-def model_inputs(hyps, neg_goal, stores, bounds=(2, 3, 4, 6), timeout_s=10.0, max_cells=4000):
+def model_inputs(hyps, neg_goal, stores, bounds=(2, 3, 4, 6), timeout_s=10.0, max_cells=4000, ints=None):
     """Counterexample shrinking: re-solve the refuted query with every shape variable of the input arrays bounded by a small
     constant and read the input arrays off the model.  Returns {name: numpy array} or None."""
     import z3
@@ -538,6 +538,13 @@ def model_inputs(hyps, neg_goal, stores, bounds=(2, 3, 4, 6), timeout_s=10.0, ma
                 for v in _int_consts(dz):
                     if all(not v.eq(x) for x in dimv):
                         dimv.append(v)
+    ints = ints or {}
+    for iv in ints.values():        # integer arguments of the case (image sizes, ...) are bounded and read off the model like the shapes
+        dz = getattr(iv, "z", None)
+        if dz is not None:
+            for v in _int_consts(dz):
+                if all(not v.eq(x) for x in dimv):
+                    dimv.append(v)
     for B in bounds:
         s = z3.Solver()
         s.set("timeout", int(timeout_s * 1000))
@@ -551,6 +558,8 @@ def model_inputs(hyps, neg_goal, stores, bounds=(2, 3, 4, 6), timeout_s=10.0, ma
         m = s.model()
         out = {}
         try:
+            for nm, iv in ints.items():
+                out[nm] = iv if isinstance(iv, int) else m.eval(iv.z, model_completion=True).as_long()
             for name, shape, f in stores:
                 dims = []
                 for d in shape:
@@ -602,7 +611,7 @@ def concrete_replay(ctx, z_goal):
         return None
     import z3
     try:
-        inputs = model_inputs(ctx.hyps(), z3.Not(z_goal), ctx.ghost.get("input_stores", []))
+        inputs = model_inputs(ctx.hyps(), z3.Not(z_goal), ctx.ghost.get("input_stores", []), ints=ctx.ghost.get("input_ints"))
         if inputs is None:
             return {"concrete_inputs": None, "note": "no small counterexample (shape bounds 2..6) within the time limit"}
         res = fn(inputs)
